@@ -35,6 +35,11 @@ structure Lifecycle where
   ctxReleaseReturnsRedirect : Bool  -- DefaultCtx.release hands the attached Redirect back
   flashDecodeWipes : Bool           -- parseAndClearFlashMessages clears the reused slice (full capacity) before decoding
   flashDropsOnError : Bool          -- … and drops partial results when decoding fails
+  errorHandlerDefersRelease : Bool  -- app.go serverErrorHandler `defer app.ReleaseCtx(c)`
+  poolOpsConfined : Bool            -- App.pool only in AcquireCtx (Get) / ReleaseCtx (Put); redirectPool only in AcquireRedirect / ReleaseRedirect
+  starWritesSlot0 : Bool            -- router.go Route.match: the catch-all branch writes params[0] on every path
+  getMatchWritesBeforeRead : Bool   -- path.go getMatch: every use of params follows the unconditional params[paramsIterator] = … of the same iteration
+  paramsReadsRouteSlots : Bool      -- ctx.go Params indexes c.values only with the loop variable of `range route.Params`
   deriving DecidableEq, Repr, Inhabited
 
 end C05
